@@ -512,8 +512,12 @@ func (r *Recomposer) recomp(v any, rv reflect.Value) {
 			}
 		}
 	case reflect.Interface:
-		v = r.recompAny(v)
-		rv.Set(reflect.ValueOf(v))
+		if v = r.recompAny(v); v == nil {
+			// A null element. The zero reflect.Value can not be set.
+			rv.Set(reflect.Zero(rv.Type()))
+		} else {
+			rv.Set(reflect.ValueOf(v))
+		}
 	case reflect.Ptr: // a pointer to a pointer
 		ev := reflect.New(rv.Type().Elem())
 		r.recomp(v, ev)
@@ -597,8 +601,12 @@ func (r *Recomposer) setValue(v any, rv reflect.Value, sf *reflect.StructField) 
 	case reflect.String:
 		rv.Set(reflect.ValueOf(v).Convert(rv.Type()))
 	case reflect.Interface:
-		v = r.recompAny(v)
-		rv.Set(reflect.ValueOf(v))
+		if v = r.recompAny(v); v == nil {
+			// A null element. The zero reflect.Value can not be set.
+			rv.Set(reflect.Zero(rv.Type()))
+		} else {
+			rv.Set(reflect.ValueOf(v))
+		}
 	case reflect.Ptr:
 		ev := reflect.New(rv.Type().Elem())
 		r.recomp(v, ev)
